@@ -36,7 +36,7 @@ def wrapStep (box : Bound α) (input : List (List (Pt α))) (o : Int) (n : Nat) 
         match input[ep.index]? with
         | none => .panic "index out of range"
         | some piece =>
-          .ok (.inr ({ st with current := piece, points := st.points.set (i % n) { ep with used := true } }, i+1))
+          .ok (.inr ({ st with current := piece, first := ep.index, points := st.points.set (i % n) { ep with used := true } }, i+1))
       else .ok (.inr (st, i+1))
     else if st.current.isEmpty then .ok (.inr (st, i+1))
     else
@@ -45,9 +45,9 @@ def wrapStep (box : Bound α) (input : List (List (Pt α))) (o : Int) (n : Nat) 
         Res.bind (if Core.ptEq ep.point cl then .ok []
             else Res.bind (aroundBound box [ep.point, cl] o) fun r => .ok (r.drop 2) : Res String (List (Pt α)))
           fun rTail =>
-          if Core.ptEq ep.point cf then
+          if ep.index == st.first && Core.ptEq ep.point cf then
             .ok (.inr ({ points := st.points.set (i % n) { ep with used := true }, current := [],
-                         result := st.result ++ [[st.current ++ rTail]] }, 0))
+                         result := st.result ++ [[st.current ++ rTail]], first := st.first }, 0))
           else
             match input[ep.index]? with
             | none => .panic "index out of range"
@@ -56,7 +56,7 @@ def wrapStep (box : Bound α) (input : List (List (Pt α))) (o : Int) (n : Nat) 
               .ok (.inr ({ points := (st.points.set (i % n) { ep with used := true }).modify ep.otherEnd
                                         fun e => { e with used := true },
                            current := st.current ++ (if rTail.isEmpty then [] else rTail.dropLast) ++ piece,
-                           result := st.result }, ep.otherEnd + 1))
+                           result := st.result, first := st.first }, ep.otherEnd + 1))
       | _, _ => .panic "index out of range"
 
 /-- continuation of the loop after one step -/
@@ -105,7 +105,7 @@ theorem wrapLoop_succ (box : Bound α) (input : List (List (Pt α))) (o : Int) (
                   | panic w => rfl
                 refine key _ _ _ ?_
                 intro rTail
-                by_cases h8 : Core.ptEq ep.point cf = true
+                by_cases h8 : (ep.index == st.first && Core.ptEq ep.point cf) = true
                 · rw [if_pos h8, if_pos h8]; rfl
                 · rw [if_neg h8, if_neg h8]
                   cases h9 : input[ep.index]? with
@@ -132,16 +132,16 @@ theorem wrapStep_cases {box : Bound α} {input : List (List (Pt α))} {o : Int} 
     (i < 2 * n ∧ ∃ ep, st.points[i % n]? = some ep ∧
       (x = .inr (st, i+1) ∨
        (ep.used = false ∧ st.current = [] ∧ ∃ piece, input[ep.index]? = some piece ∧
-          x = .inr ({ st with current := piece, points := st.points.set (i % n) (usedT ep) }, i+1)) ∨
+          x = .inr ({ st with current := piece, first := ep.index, points := st.points.set (i % n) (usedT ep) }, i+1)) ∨
        (ep.used = false ∧ ∃ cf cl rTail, st.current.head? = some cf ∧ st.current.getLast? = some cl ∧
           ((ep.point = cl ∧ rTail = []) ∨
            (ep.point ≠ cl ∧ ∃ r, aroundBound box [ep.point, cl] o = .ok r ∧ rTail = r.drop 2)) ∧
           ((ep.point = cf ∧ x = .inr ({ points := st.points.set (i % n) (usedT ep), current := [],
-                                        result := st.result ++ [[st.current ++ rTail]] }, 0)) ∨
+                                        result := st.result ++ [[st.current ++ rTail]], first := st.first }, 0)) ∨
            (∃ piece, input[ep.index]? = some piece ∧ ep.otherEnd < st.points.length ∧
               x = .inr ({ points := (st.points.set (i % n) (usedT ep)).modify ep.otherEnd usedT,
                           current := st.current ++ (if rTail.isEmpty then [] else rTail.dropLast) ++ piece,
-                          result := st.result }, ep.otherEnd + 1)))))) := by
+                          result := st.result, first := st.first }, ep.otherEnd + 1)))))) := by
   rw [wrapStep] at h
   by_cases h1 : i ≥ 2 * n
   · rw [if_pos h1] at h
@@ -193,9 +193,9 @@ theorem wrapStep_cases {box : Bound α} {input : List (List (Pt α))} {o : Int} 
                     right
                     obtain ⟨r, hr1, hr2⟩ := resBind_ok_invW hr
                     exact ⟨fun hh => h8 ((ptEq_iff_C _ _).2 hh), r, hr1, by cases hr2; rfl⟩
-                · by_cases h8 : Core.ptEq ep.point cf = true
+                · by_cases h8 : (ep.index == st.first && Core.ptEq ep.point cf) = true
                   · rw [if_pos h8] at h
-                    left; exact ⟨(ptEq_iff_C _ _).1 h8, by cases h; rfl⟩
+                    left; exact ⟨(ptEq_iff_C _ _).1 (Bool.and_eq_true_iff.1 h8).2, by cases h; rfl⟩
                   · rw [if_neg h8] at h
                     right
                     cases h9 : input[ep.index]? with
@@ -550,7 +550,7 @@ theorem wrapStep_ok {box : Bound α} (hb : BoxOK box) {input : List (List (Pt α
               rw [hr]; exact ⟨_, rfl⟩
           obtain ⟨rTail, hr⟩ := hr
           rw [hr, resOk_bindW]
-          by_cases h8 : Core.ptEq ep.point cf = true
+          by_cases h8 : (ep.index == st.first && Core.ptEq ep.point cf) = true
           · rw [if_pos h8]; exact ⟨_, rfl⟩
           · rw [if_neg h8, hpiece]
             simp only []
